@@ -50,7 +50,7 @@ CHECKS = {
     'C06': (True, 'exploration',
             'exhaustive (max PDU length x boundary data length) grid + Hypothesis; fragment-stream invariants and byte-exact concatenation oracle',
             'Every maximum PDU length 7..70 (thorough 7..300) x every data length within +-2 of a multiple of the '
-            'fragment size, 2^k boundaries up to 2^32-1, all 23 classes, three data sources, both encode() and '
+            'fragment size, 2^k boundaries up to 2^32-1, all 23 classes, seven data sources (bytes, BytesIO, files, positioned streams, gzip, a raw stream with short reads), both encode() and '
             'Association.send, several encode() generators consumed alternately; '
             'Association.send: size bound, flags, order, context id, non-emptiness and byte-exact content. Messages of 33000-70000 (thorough 300000) fragments are included.',
             'The command-set bytes are compared with dsutils.encode(command_set) (their well-formedness is C08) '
@@ -118,7 +118,7 @@ CHECKS = {
             'Every standard (result, source, reason) triple and abort (source, reason) pair, generated values over '
             '0-255, four positions of the event (before, between, inside a half-consumed C-FIND stream, during a '
             'multi-fragment C-STORE), eight ways of leaving request_association (normally, through Exceptions, a BaseException, an abandoned generator; also when the peer refused all or most contexts), raw-socket loopback peers incl. release with responses in flight: the PDUs handed to the provider '
-            'and the exception type/fields seen by the caller are compared with what the other side did. One long-lived entity answers 300+ associations in a row (refused / served / aborted), each judged like the first. Loopback: an A-ABORT arriving while a 24 MiB C-STORE is being sent. A live association left through the error of a nested second association (refused / aborted / released by its own peer) must be aborted.',
+            'and the exception type/fields seen by the caller are compared with what the other side did. One long-lived entity answers 300+ associations in a row (refused / served / aborted), each judged like the first. Loopback: an A-ABORT arriving while a 24 MiB C-STORE is being sent. A live association left through the error of a nested second association (refused / aborted / released by its own peer) must be aborted. Through the real provider loop on the simulated transport: an abort with (source, reason) requested while a message of 2-13 fragments is with the provider goes out with exactly those values, last.',
             'Scripted provider (vf/fakedul.py); what the provider itself does with these PDUs is C04/C05.',
             'fakedul', 'DESIGN.md#C14'),
     'C15': (True, 'exploration',
@@ -163,13 +163,13 @@ CHECKS = {
             'right association with the right context and content, survivors unaffected. Part b: 2-4 acceptor bodies '
             'sharing one AE run on scripted providers, interleaved at every provider send/receive in a '
             'Hypothesis-drawn (shrinkable, replayable) order; each must behave exactly as when run alone. '
-            '_new_msg_id() is checked from 16 concurrent threads. Part c: codecs, fragmentation, group length and status classification in 8 threads under a 1 us switch interval against single-threaded results. Part d: one requesting entity with 2-4 associations open at once on scripted peers refusing with codes 1-4: each proposes all configured classes and uses exactly what its own peer accepted. Part f: one long-lived entity on which 300 associations in a row fail in each of 7 ways, an ordinary association after each run must be served; over real TCP, silent connections must not delay other associations; message IDs of c_find() calls from several threads.',
+            '_new_msg_id() is checked from 16 concurrent threads. Part c: codecs, fragmentation, group length and status classification in 8 threads under a 1 us switch interval against single-threaded results. Part d: one requesting entity with 2-4 associations open at once on scripted peers refusing with codes 1-4: each proposes all configured classes and uses exactly what its own peer accepted. Part f: one long-lived entity on which 300 associations in a row fail in each of 7 ways, an ordinary association after each run must be served; over real TCP, silent connections must not delay other associations; message IDs of c_find() calls from several threads; raw peers that vanish / abort in the middle of a C-STORE, after which ordinary associations store shorter instances on the same entity and must be handed exactly their own bytes.',
             'Races finer than provider primitives are only sampled (part a), not enumerated.',
             'loopback+fakedul', 'DESIGN.md#C20'),
     'C18': (True, 'exploration',
             'exhaustive enumeration against an independent status table + metamorphic precedence test',
             'All 65536 codes x 24 command choices are constructed and compared with a table '
-            'transcribed from PS3.7/PS3.4; the domain is finite so the enumeration is complete. Registrations made after the codes were looked up, classification asked from two threads.',
+            'transcribed from PS3.7/PS3.4; the domain is finite so the enumeration is complete. Registrations made after the codes were looked up, classification asked from two threads; the built-in registration run again, sequentially and in a thread while another classifies.',
             'Trusts the transcription of the status tables (DESIGN.md C18) and its tolerance for '
             'codes outside every service-specific table.', 'enumeration', 'DESIGN.md#C18'),
 }
@@ -229,7 +229,7 @@ def main():
 ENGINES = [
     {'name': 'refpdu', 'path': 'vf/refpdu.py', 'serves_properties': ['C02', 'C03', 'C04', 'C05', 'C09', 'C10', 'C11', 'C12', 'C13', 'C14'],
      'kind_free_text': 'independent strict PDU reference encoder/parser (PS3.8 9.3, PS3.7 Annex D)'},
-    {'name': 'simnet', 'path': 'vf/simnet.py', 'serves_properties': ['C03', 'C04', 'C05', 'C12', 'C13'],
+    {'name': 'simnet', 'path': 'vf/simnet.py', 'serves_properties': ['C03', 'C04', 'C05', 'C12', 'C13', 'C14'],
      'kind_free_text': 'real DULServiceProvider.run() executed in the calling thread against simulated socket/select(+poll)/clock (time, monotonic)/user queue; timer observed through its public methods; scripted scenarios incl. write faults, stalls, livelock detection'},
     {'name': 'ulmodel', 'path': 'vf/ulmodel.py', 'serves_properties': ['C04', 'C05', 'C12', 'C13'],
      'kind_free_text': 'executable PS3.8 Table 9-10 protocol machine (123 cells, 28 actions) with ARTIM, transport and reassembly tracking'},
